@@ -1,9 +1,10 @@
 import YProofs.Props.C02Legs
+import YProofs.Props.C01Diag
 /-!
 # C02 — every finite program
 
 `eval_wf`: starting from well-formed tensors, every value any finite straight-line program over the modelled
-operations (element-wise, conj/flip_signature, add/sub, transpose, tensordot, trace, add_leg, remove_leg)
+operations (element-wise, conj/flip_signature, add/sub, transpose, tensordot, trace, add_leg, remove_leg, broadcast, apply_mask, diag)
 ever produces is well-formed.
 -/
 namespace YModel
@@ -23,7 +24,7 @@ theorem getVal_mem {vals : List (Tensor R)} {i : Nat} {t : Tensor R} (h : getVal
 def GoodState (d : SymDef) (ms : List Nat) (vals : List (Tensor R)) : Prop :=
   ∀ t ∈ vals, WF ms t ∧ t.sym = d
 
-theorem step_wf [Zero R] [Add R] [Mul R] [Neg R] [Conj R] {d : SymDef} (hd : WSym d ms)
+theorem step_wf [Zero R] [Add R] [Mul R] [Neg R] [Conj R] [DecidableEq R] {d : SymDef} (hd : WSym d ms)
     {vals : List (Tensor R)} (hv : GoodState d ms vals) (st : Step R) {t : Tensor R}
     (h : st.run vals = .ok t) : WF ms t ∧ t.sym = d := by
   cases st with
@@ -117,9 +118,33 @@ theorem step_wf [Zero R] [Add R] [Mul R] [Neg R] [Conj R] {d : SymDef} (hd : WSy
     obtain ⟨wa, sa⟩ := hv a (getVal_mem ha)
     exact ⟨wf_removeLeg (by rw [sa]; exact hd) wa h, by rw [(charge_removeLeg h).2.1, sa]⟩
 
+  | broadcast dd i axis =>
+    simp only [Step.run, bind, Except.bind] at h
+    split at h; · cases h
+    split at h; · cases h
+    rename_i _ _ a ha
+    obtain ⟨wa, sa⟩ := hv a (getVal_mem ha)
+    obtain ⟨w, _, _, hs⟩ := wf_broadcast wa h
+    exact ⟨w, by rw [hs, sa]⟩
+  | applyMask m i axis =>
+    simp only [Step.run, bind, Except.bind] at h
+    split at h; · cases h
+    split at h; · cases h
+    rename_i _ _ a ha
+    obtain ⟨wa, sa⟩ := hv a (getVal_mem ha)
+    obtain ⟨w, _, _, hs⟩ := wf_applyMask wa h
+    exact ⟨w, by rw [hs, sa]⟩
+  | diag i =>
+    simp only [Step.run, bind, Except.bind] at h
+    split at h; · cases h
+    rename_i a ha
+    obtain ⟨wa, sa⟩ := hv a (getVal_mem ha)
+    obtain ⟨w, _, _, hs, _⟩ := wf_diag wa h
+    exact ⟨w, by rw [hs, sa]⟩
+
 /-- **every finite sequence of operations**: starting from well-formed tensors, every value a program
 ever produces is well-formed (induction over the program) -/
-theorem eval_wf [Zero R] [Add R] [Mul R] [Neg R] [Conj R] {d : SymDef} (hd : WSym d ms)
+theorem eval_wf [Zero R] [Add R] [Mul R] [Neg R] [Conj R] [DecidableEq R] {d : SymDef} (hd : WSym d ms)
     (steps : List (Step R)) {vals out : List (Tensor R)} (hv : GoodState d ms vals)
     (h : runProg vals steps = .ok out) : GoodState d ms out := by
   induction steps generalizing vals with
